@@ -18,6 +18,7 @@ from struct import pack
 from typing import ClassVar
 
 from exabgp.bgp.message.update.attribute.tunnel_encap.tlv import SubTLV
+from exabgp.util import peertext
 from exabgp.util.types import Buffer
 
 
@@ -45,7 +46,8 @@ class PolicyNameSubTLV(SubTLV):
         return f'"policy-name": {json.dumps(self.name)}'
 
     def __str__(self) -> str:
-        return f'policy-name "{self.name}"'
+        # (a name holding a double quote closed its own quotes and wrote sub-TLVs which were never sent)
+        return f'policy-name "{peertext(self.name)}"'
 
     @classmethod
     def unpack(cls, data: Buffer) -> PolicyNameSubTLV:
